@@ -49,7 +49,7 @@ TIERS = {
 
 NAMES = ["a", "b", "c", "x y", ".def_0"]
 ONESHOT = ("is_sat", "is_valid", "is_unsat")
-FAULTS = ["unknown", "error", "die_before", "die_at_start", "stall"]
+FAULTS = ["unknown", "error", "die_before", "die_at_start", "die_after", "stall"]
 # separate: the member answers the query and dies when first asked for a value
 
 
@@ -64,7 +64,7 @@ def _member_profile(tape, d, faulty, all_fail=False):
         pf["fault_after_answer"] = True
         return pf
     if faulty and (all_fail or tape.chance(1, 2, "member.faulty")):
-        fk = tape.choice(FAULTS if not all_fail else FAULTS[:4], "fault.kind")
+        fk = tape.choice(FAULTS if not all_fail else FAULTS[:5], "fault.kind")
         pf["fault"] = fk
         if fk == "unknown":
             pf["unknown_at_check"] = [1]
@@ -77,6 +77,9 @@ def _member_profile(tape, d, faulty, all_fail=False):
                                                   "set-option"], "die.name"), 1]
         elif fk == "die_at_start":
             pf["die_at_start"] = True
+        elif fk == "die_after":
+            # the solver process exits between two commands (before the member asks check-sat)
+            pf["die_after_name"] = [tape.choice(["assert", "assert", "declare-fun", "set-logic"], "dieafter.name"), 1]
         elif fk == "stall":
             pf["check_delay"] = float("inf")
     return pf
@@ -272,7 +275,7 @@ def execute(plan, tape):
                 out.append("stall")
             elif fk in ("unknown", "die_at_start"):
                 out.append("fail")
-            elif fk in ("error", "die_before"):
+            elif fk in ("error", "die_before", "die_after"):
                 out.append("maybe-fail")      # depends on whether the faulty command number is reached
             else:
                 out.append("answer")
